@@ -107,6 +107,8 @@ def _simplify(ctx, p, ci):
     if which == 'rdp':
         # plain rdp can fail to terminate on exact collinear runs / y == 0 chords (C01 territory): the
         # loop budget turns that into the value DIVERGED, identical in every world
+        if t == F(0.0):
+            t = F(0.001)      # plain rdp never stops with a zero threshold on a non-R2 metric (C01's business): no point burning the budget
         return p.call('rdp.rdp', pts, t=t, distance=dist, cost=cost)
     if which == 'grdp':
         return p.call('rdp.grdp', pts, t=t, distance=dist, cost=cost, order=order)
